@@ -368,6 +368,25 @@ pub fn entries() -> Vec<Entry> {
 			}
 		}
 	}
+	// the raw lock type's own Send / Sync must be required as well
+	{
+		let raws = "struct LocalRaw(parking_lot::RawMutex, std::marker::PhantomData<*const ()>);\nunsafe impl lock_api::RawMutex for LocalRaw {\n\tconst INIT: Self = LocalRaw(<parking_lot::RawMutex as lock_api::RawMutex>::INIT, std::marker::PhantomData);\n\ttype GuardMarker = lock_api::GuardNoSend;\n\tfn lock(&self) { lock_api::RawMutex::lock(&self.0) }\n\tfn try_lock(&self) -> bool { lock_api::RawMutex::try_lock(&self.0) }\n\tunsafe fn unlock(&self) { lock_api::RawMutex::unlock(&self.0) }\n}\nstruct LocalRawRw(parking_lot::RawRwLock, std::marker::PhantomData<*const ()>);\nunsafe impl lock_api::RawRwLock for LocalRawRw {\n\tconst INIT: Self = LocalRawRw(<parking_lot::RawRwLock as lock_api::RawRwLock>::INIT, std::marker::PhantomData);\n\ttype GuardMarker = lock_api::GuardNoSend;\n\tfn lock_shared(&self) { lock_api::RawRwLock::lock_shared(&self.0) }\n\tfn try_lock_shared(&self) -> bool { lock_api::RawRwLock::try_lock_shared(&self.0) }\n\tunsafe fn unlock_shared(&self) { lock_api::RawRwLock::unlock_shared(&self.0) }\n\tfn lock_exclusive(&self) { lock_api::RawRwLock::lock_exclusive(&self.0) }\n\tfn try_lock_exclusive(&self) -> bool { lock_api::RawRwLock::try_lock_exclusive(&self.0) }\n\tunsafe fn unlock_exclusive(&self) { lock_api::RawRwLock::unlock_exclusive(&self.0) }\n}\n";
+		for (recv, bound, ty, good) in [
+			("Mutex<i32, !Send raw>", "need_send_t", "happylock::mutex::Mutex<i32, LocalRaw>", "happylock::mutex::Mutex<i32, parking_lot::RawMutex>"),
+			("Mutex<i32, !Sync raw>", "need_sync_t", "happylock::mutex::Mutex<i32, LocalRaw>", "happylock::mutex::Mutex<i32, parking_lot::RawMutex>"),
+			("RwLock<i32, !Send raw>", "need_send_t", "happylock::rwlock::RwLock<i32, LocalRawRw>", "happylock::rwlock::RwLock<i32, parking_lot::RawRwLock>"),
+			("RwLock<i32, !Sync raw>", "need_sync_t", "happylock::rwlock::RwLock<i32, LocalRawRw>", "happylock::rwlock::RwLock<i32, parking_lot::RawRwLock>"),
+			("MutexRef<i32, !Sync raw>", "need_sync_t", "happylock::mutex::MutexRef<'static, i32, LocalRaw>", "happylock::mutex::MutexRef<'static, i32, parking_lot::RawMutex>"),
+			("RwLockReadRef<i32, !Sync raw>", "need_sync_t", "happylock::rwlock::RwLockReadRef<'static, i32, LocalRawRw>", "happylock::rwlock::RwLockReadRef<'static, i32, parking_lot::RawRwLock>"),
+			("RwLockWriteRef<i32, !Sync raw>", "need_sync_t", "happylock::rwlock::RwLockWriteRef<'static, i32, LocalRawRw>", "happylock::rwlock::RwLockWriteRef<'static, i32, parking_lot::RawRwLock>"),
+			("LockCollection<Mutex<i32, !Sync raw>>", "need_sync_t", "LockCollection<happylock::mutex::Mutex<i32, LocalRaw>>", "LockCollection<happylock::mutex::Mutex<i32, parking_lot::RawMutex>>"),
+			("RefLockCollection<[RwLock<i32, !Sync raw>;1]>: Send", "need_send_t", "RefLockCollection<'static, [happylock::rwlock::RwLock<i32, LocalRawRw>; 1]>", "RefLockCollection<'static, [happylock::rwlock::RwLock<i32, parking_lot::RawRwLock>; 1]>"),
+		] {
+			let mut en = e("C15", "raw-lock-type-not-thread-safe", recv, "", &format!("\t{}::<{}>();", bound, ty), &format!("\t{}::<{}>();", bound, good), "", &["E0277"]);
+			en.items = raws.to_string();
+			v.push(en);
+		}
+	}
 	// the dynamic consequence of a missing Sync bound: two threads read a Cell through an RwLock
 	v.push(e(
 		"C15",
